@@ -5,7 +5,6 @@ individuals (or "chromosomes") chosen at random from the population. The winner
 of each tournament (the one with the smallest fitness) is selected to advance
 into the next generation.
 """
-from operator import attrgetter
 import numpy as np
 
 from .selection import Selection
@@ -49,7 +48,11 @@ class Tournament(Selection):
         for _ in range(target_population_size):
             tournament_members = np.random.choice(population, self._size,
                                                   replace=False)
-            winner = min(tournament_members, key=attrgetter('fitness'))
+            winner = tournament_members[0]
+            for member in tournament_members:
+                if member.fitness < winner.fitness \
+                        or np.isnan(winner.fitness):
+                    winner = member
             next_generation.append(winner.copy())
 
         return next_generation
